@@ -1,5 +1,5 @@
 (* Entry points of the executable model used by the correspondence check (extracted). *)
-From RP Require Import Base Stream Target Socks Http Frames Frag MiluSyntax MiluParser MiluDoc MiluEval Dispatch MiluSound MiluWf Reload Lb.
+From RP Require Import Base Stream Target Socks Http Frames Frag MiluSyntax MiluParser MiluDoc MiluEval Dispatch MiluSound MiluWf Reload Lb Callbacks.
 From RP.Gen Require Gen_ladder.
 
 Definition HFUEL : nat := 4000.   (* header lines per HTTP head in generated cases are far fewer *)
@@ -47,3 +47,6 @@ Definition x_wf_lfb := wf_lfb.
 
 Definition x_rrun regex cidr rq0 conns := rrun x_milu_parse regex cidr 4000 rq0 conns (mk_rstate [] []).
 Definition x_member_at := @member_at bytes.
+
+Definition x_client_bytes (p : N) (tgt : target) (msg : bytes) (k : N) : bytes :=
+  client_bytes (match p with 0 => PHttp | 5 => PSocks5 | _ => PSocks4 end) tgt msg k.
